@@ -295,4 +295,104 @@ theorem applySvc_sound (E : Env) (hfs : NoNullFS E) :
           subst hc
           exact ⟨fun _ => hflat, hi, fun _ x => x⟩
 
+theorem applyAll_sound (E : Env) (hfs : NoNullFS E) (fuel : Nat) :
+    ∀ (names : List String) (cur orig R : KVs),
+      NoNull orig → Inv E orig cur → (∀ n ∈ names, lookup n orig ≠ none) →
+      applyAll E fuel names cur = .ok R →
+      Inv E orig R ∧ (∀ n', FlatAt E orig cur n' → FlatAt E orig R n') ∧
+      (∀ n ∈ names, FlatAt E orig R n) := by
+  intro names
+  induction names with
+  | nil =>
+    intro cur orig R _ hi _ h
+    simp only [applyAll, Out.ok.injEq] at h
+    subst h
+    exact ⟨hi, fun _ x => x, fun _ hn => by cases hn⟩
+  | cons n ns ih =>
+    intro cur orig R hnn hi hk h
+    simp only [applyAll] at h
+    split at h <;> try cases h
+    rename_i v S' hs
+    have hkn : lookup n orig ≠ none := hk n (List.mem_cons_self ..)
+    obtain ⟨r1, r2, r3⟩ := applySvc_sound E hfs fuel n cur [] orig v S' hnn hi hs
+    have hflat := r1 ((hi.key_iff n).mpr hkn)
+    obtain ⟨q1, q2, q3⟩ := ih (Val.insert n v S') orig R hnn (r2.insert hflat)
+      (fun m hm => hk m (List.mem_cons_of_mem _ hm)) h
+    refine ⟨q1, fun n' x => q2 n' (FlatAt.insert hflat (r3 n' x)), ?_⟩
+    intro m hm
+    rcases List.mem_cons.mp hm with rfl | hm'
+    · exact q2 _ ⟨v, lookup_insert_self _ _ _, hflat⟩
+    · exact q3 m hm'
+
+/-! ## chains: links are deterministic, a flattened service is not on a cycle -/
+
+theorem Link.functional {E : Env} {a b b' : KVs × String} (h : Link E a b) (h' : Link E a b') : b = b' := by
+  obtain ⟨svc, e, file, h1, h2, h3, h4⟩ := h
+  obtain ⟨svc', e', file', g1, g2, g3, g4⟩ := h'
+  have e1 := h1.symm.trans g1
+  simp only [Option.some.injEq, Val.map.injEq] at e1
+  subst e1
+  have e2 := h2.symm.trans g2
+  simp only [Option.some.injEq] at e2
+  subst e2
+  have e3 := h3.symm.trans g3
+  simp only [Out.ok.injEq, Prod.mk.injEq] at e3
+  obtain ⟨e3a, e3b⟩ := e3
+  subst e3b
+  rw [← e3a] at g4
+  have e4 := h4.symm.trans g4
+  simp only [Option.some.injEq] at e4
+  exact Prod.ext e4 e3a
+
+theorem Reach.head {E : Env} {a c : KVs × String} (h : Reach E a c) :
+    ∃ b, Link E a b ∧ (b = c ∨ Reach E b c) := by
+  cases h with
+  | one l => exact ⟨_, l, Or.inl rfl⟩
+  | cons l r => exact ⟨_, l, Or.inr r⟩
+
+theorem Reach.snoc {E : Env} {a b c : KVs × String} (h : Reach E a b) (l : Link E b c) : Reach E a c := by
+  induction h with
+  | one l' => exact Reach.cons l' (Reach.one l)
+  | cons l' _ ih => exact Reach.cons l' (ih l)
+
+/-- a service that has a flattened form is neither on a cycle nor leads into one -/
+theorem Flat.acyclic {E : Env} {S : KVs} {n : String} {v : Val} (h : Flat E S n v) :
+    ∀ c, (c = (S, n) ∨ Reach E (S, n) c) → ¬ Reach E c c := by
+  induction h with
+  | leaf h1 h2 =>
+    rename_i S n svc
+    have nolink : ∀ b, ¬ Link E (S, n) b := by
+      intro b ⟨svc', e, file, g1, g2, _, _⟩
+      have e1 := h1.symm.trans g1
+      simp only [Option.some.injEq, Val.map.injEq] at e1
+      subst e1
+      rw [h2] at g2; cases g2
+    intro c hc hcc
+    rcases hc with rfl | hr
+    · obtain ⟨b, l, _⟩ := hcc.head; exact nolink b l
+    · obtain ⟨b, l, _⟩ := hr.head; exact nolink b l
+  | step h1 h2 h3 h4 h5 h6 ih =>
+    rename_i S n svc e ref file S' b m
+    have l0 : Link E (S, n) (S', ref) := ⟨svc, e, file, h1, h2, h3, h4⟩
+    intro c hc hcc
+    rcases hc with rfl | hr
+    · obtain ⟨b', l, hb⟩ := hcc.head
+      have := Link.functional l l0
+      subst this
+      rcases hb with hb | hb
+      · exact ih (S', ref) (Or.inl rfl) (hb ▸ hcc)
+      · exact ih (S', ref) (Or.inl rfl) (hb.snoc l0)
+    · obtain ⟨b', l, hb⟩ := hr.head
+      have := Link.functional l l0
+      subst this
+      rcases hb with hb | hb
+      · exact ih c (Or.inl hb.symm) hcc
+      · exact ih c (Or.inr hb) hcc
+
+theorem Flat.not_cyclic {E : Env} {S : KVs} {n : String} {v : Val} (h : Flat E S n v) : ¬ Cyclic E (S, n) := by
+  intro hc
+  rcases hc with hc | ⟨c, h1, h2⟩
+  · exact h.acyclic _ (Or.inl rfl) hc
+  · exact h.acyclic c (Or.inr h1) h2
+
 end CV.Extends
